@@ -810,6 +810,29 @@ func (p *Prog) stateSpecs(tn string) []stateSpec {
 				return 0
 			}), w})
 		}
+		if thoroughMode {
+			// every pair of setters
+			for i := 0; i < len(names); i++ {
+				for j := i + 1; j < len(names); j++ {
+					a, b := names[i], names[j]
+					if a == "SetWill" || b == "SetWill" {
+						continue
+					}
+					out = append(out, stateSpec{"pair " + a + "+" + b + wtag, pick(func(n string) int {
+						if n == a || n == b {
+							return 0
+						}
+						return -1
+					}), w})
+					out = append(out, stateSpec{"all but " + a + "+" + b + wtag, pick(func(n string) int {
+						if n == a || n == b {
+							return -1
+						}
+						return 1
+					}), w})
+				}
+			}
+		}
 		// pairs of guard-relevant setters
 		var guardish []string
 		for _, n := range names {
